@@ -36,7 +36,7 @@ if [ -n "$DEMOFILE" ] && [ -n "$DEMO_PATH" ]; then
 fi
 RES=""
 for C in ${@:-$PROP}; do
-  OUT=$(cd /verif && VERIF_REPO=$WT bin/check $C --tier ${TIER:-quick} --seed ${SEED:-1} 2>&1); RC=$?
+  OUT=$(cd ${VERIF_DIR:-/verif} && VERIF_REPO=$WT bin/check $C --tier ${TIER:-quick} --seed ${SEED:-1} 2>&1); RC=$?
   SIG=$(echo "$OUT" | grep -m2 'signature:' | sed 's/ *signature: //' | tr '\n' ';')
   RES="$RES $C:rc=$RC[$SIG]"
 done
